@@ -333,11 +333,11 @@ def main(tier):
     # (Props/Inlines.v: every value the inline phase constructs is an inline the containment table accepts);
     # both parser models are tied to the compiled parser here (full scopes in the thorough tier)
     from checks import layerc
-    layerc.blocks(c, tier, 0.35 if quick else 1.0)
-    layerc.inlines(c, tier, 0.3 if quick else 1.0)
+    layerc.blocks(c, tier, 0.2 if quick else 1.0)
+    layerc.inlines(c, tier, 0.15 if quick else 1.0)
     # the FINAL tree: Parse_valid_partial / Parse_shape (Props/Parse.v) about Model/Parse.v parse_document_model, the whole
     # parser as one function, tied end to end to parse_document here
-    layerc.whole(c, tier, 0.25 if quick else 0.5)
+    layerc.whole(c, tier, 0.2 if quick else 0.5)
     # Parse_valid_partial2 (Props/Parse.v): structurally_valid of the final tree under the premise bcells_ok (no CR / LF in
     # the content of a TableCell of the block tree).  Premise and conclusion are evaluated on the MODEL's own trees
     model_report(c, rng, 300 if quick else 6000)
